@@ -18,9 +18,11 @@
    Rational), RNaN = <<0, 0>> for NaN; integers are <<v, 1>>.  One
    representation for every family keeps all comparisons well-typed for TLC.
 
-   A CASE is a record [fam, op, a, b, c, s, vk, u, tgt]:
+   A CASE is a record [fam, op, a, b, c, s, t, vk, u, tgt]:
      fam = "roll"   op in {sum, min, max, count, mean}
                     a = window (>= 1), b = min_periods (NA = None = window), c = center (0/1)
+     fam = "troll"  op as for "roll", a = window in DAYS (>= 1), b = min_periods (NA = None = 1):
+                    rolling("<a>D", min_periods) over a DatetimeIndex (closed on the right)
      fam = "cum"    op in {cumsum, cumprod, cummin, cummax},  a = skipna (0/1)
      fam = "shift"  op = "shift", a = periods (any integer)
      fam = "diff"   op = "diff",  a = periods (any integer)
@@ -29,6 +31,9 @@
                     map_overlap(f, before, after) with the neighbour-identifying
                     function f of Stencil below
      s   = the lane the operation is applied to (column "v")
+     t   = the index labels of the rows, strictly increasing integers: row i
+           carries label t[i] (for "troll" the label is a day number and the
+           index a DatetimeIndex; for the other families t = 0, 1, 2, ...)
      vk  = the dtype class column "v" is built with: "i" (integers; only for a
            lane without NA) or "f" (floats)
      u   = a second lane (column "u", integers without NA) - only looked at
@@ -78,6 +83,11 @@ RollCell(agg, win, w, mp0) ==
             [] agg = "mean" -> IF v = <<>> THEN RNaN ELSE RNorm(SumSeq(v), Len(v))
 
 Rolling(ln, agg, w, mp, ctr) == [i \in DOMAIN ln |-> RollCell(agg, Window(ln, i, w, ctr), w, mp)]
+
+(* rolling("<w>D", min_periods) over a DatetimeIndex: the window of row i holds the rows j <= i
+   whose label lies in the half-open interval (t[i] - w, t[i]]; min_periods = None means 1.    *)
+TimeWindow(lab, ln, i, w) == SelectSeq([j \in 1..i |-> IF lab[j] > lab[i] - w THEN ln[j] ELSE 0 - 1], LAMBDA v : v # 0 - 1)
+RollingTime(lab, ln, agg, w, mp) == [i \in DOMAIN ln |-> RollCell(agg, TimeWindow(lab, ln, i, w), 1, mp)]
 
 -----------------------------------------------------------------------------
 (* cumsum / cumprod / cummin / cummax(skipna).  skipna: a NaN cell stays NaN
@@ -144,7 +154,7 @@ StencilBase(n) == n + 1
    it is what an implementation that shares `before` / `after` rows between
    neighbouring partitions relies on).  Unbounded = the whole prefix / suffix
    matters (cumulatives, fills without a limit).                              *)
-Unbounded(c) == c.fam = "cum" \/ (c.fam = "fill" /\ c.a = NA)
+Unbounded(c) == c.fam \in {"cum", "troll"} \/ (c.fam = "fill" /\ c.a = NA)      \* ("troll": bounded in TIME, not in rows)
 Before(c) ==
   CASE c.fam = "roll"  -> IF c.c = 1 THEN c.a \div 2 ELSE c.a - 1
     [] c.fam \in {"shift", "diff"} -> Most(0, c.a)
@@ -162,6 +172,7 @@ After(c) ==
 (* The reference result of case c on the lane `cells`.                        *)
 Ref(c, cells) ==
   CASE c.fam = "roll"  -> Rolling(cells, c.op, c.a, c.b, c.c)
+    [] c.fam = "troll" -> RollingTime(c.t, cells, c.op, c.a, c.b)
     [] c.fam = "cum"   -> Cumulative(cells, c.op, c.a)
     [] c.fam = "shift" -> Shift(cells, c.a)
     [] c.fam = "diff"  -> Diff(cells, c.a)
@@ -173,7 +184,7 @@ Ref(c, cells) ==
    introduces NaN, cumulatives and fills keep the class, the stencil yields
    integers.                                                                  *)
 RefKind(c, k) ==
-  CASE c.fam \in {"roll", "diff"} -> "f"
+  CASE c.fam \in {"roll", "troll", "diff"} -> "f"
     [] c.fam = "shift"            -> IF c.a = 0 THEN k ELSE "f"
     [] c.fam \in {"cum", "fill"}  -> k
     [] c.fam = "mapov"            -> "i"
@@ -185,7 +196,7 @@ TwoCols(c) == c.tgt = "frame" /\ c.fam # "mapov"
 
 \* the expected observation of a case
 Expected(c) ==
-  [idx |-> [i \in DOMAIN c.s |-> i - 1],
+  [idx |-> c.t,
    v   |-> Ref(c, c.s),
    vk  |-> RefKind(c, c.vk),
    u   |-> IF TwoCols(c) THEN Ref(c, c.u) ELSE <<>>,
